@@ -31,6 +31,11 @@ def run_cut(case):
                 events.append(_event(solver, fn(case["demands"], roll_width=W, piece_sizes=case["sizes"])))
             except Exception as ex:  # noqa: BLE001
                 events.append({"e": "raise", "solver": solver, "what": type(ex).__name__ + (":" + str(ex) if isinstance(ex, ValueError) else "")})
+        for mi in case.get("max_iters", (0, 1, 2)):          # an iteration limit must not produce a false OPTIMAL
+            try:
+                events.append(_event("cg", solve_cg(case["demands"], roll_width=W, piece_sizes=case["sizes"], max_iter=mi)))
+            except Exception as ex:  # noqa: BLE001
+                events.append({"e": "raise", "solver": "cg", "what": type(ex).__name__})
         return {"kind": "stock", "W": case["W"], "sizes": case["sizes"], "demands": case["demands"], "pool": [], "events": events, "input": case}
     pool = [tuple(c) for c in case["pool"]]
 
@@ -46,6 +51,11 @@ def run_cut(case):
             events.append(_event(solver, fn(case["demands"], pricing_fn=pricing, initial_columns=[list(c) for c in case["initial"]])))
         except Exception as ex:  # noqa: BLE001
             events.append({"e": "raise", "solver": solver, "what": type(ex).__name__})
+    for mi in case.get("max_iters", (0, 1)):
+        try:
+            events.append(_event("cg", solve_cg(case["demands"], pricing_fn=pricing, initial_columns=[list(c) for c in case["initial"]], max_iter=mi)))
+        except Exception as ex:  # noqa: BLE001
+            events.append({"e": "raise", "solver": "cg", "what": type(ex).__name__})
     return {"kind": "custom", "W": 0, "sizes": [], "demands": case["demands"], "pool": [list(c) for c in pool], "events": events, "input": case}
 
 
